@@ -585,3 +585,10 @@ Definition finding_class_m (gk : str) (ms : list member) (inp : input) : N :=
   else 0.
 
 End Parse.
+
+(* the class of a TABLE case (no input): a nested declaration without default= override (a dataclass-typed member may
+   have a default instance) is inside the guard of C07_nested_tables_agree (class 0) — the tables of such
+   declarations are proved, not only tied *)
+Definition table_class (gk : str) (ms : list member) : N :=
+  let c := finding_class_m (fun s => VStr s) gk ms {| i_env := []; i_entry := EArgs [] |} in
+  if N.eqb c 7 && forallb plain_member_d ms then 0%N else c.
